@@ -1059,6 +1059,74 @@ def same_class(t1, t2):
     return class_function(t1, atoms) == class_function(t2, atoms)
 
 
+def _advance_table(terms, atoms):
+    atoms = sorted(atoms)
+    if len(atoms) > 14:
+        raise AnalysisBroken("more than 14 branch atoms in one counter class: %s" % atoms[:20])
+    idx = {a: i for i, a in enumerate(atoms)}
+    table = {}
+    for val in itertools.product((False, True), repeat=len(atoms)):
+        act = [step for dnf, step in terms if any(all(val[idx[a]] == p for a, p in conj) for conj in dnf)]
+        lit = sum(act) if act and all(isinstance(x, int) for x in act) else None
+        table[val] = (bool(act), lit)
+    return table
+
+
+def _step_texts(terms):
+    return {str(step) for dnf, step in terms if not isinstance(step, int)}
+
+
+def compare_class(measured, demanded):
+    """'same' / 'differ' / 'unknown'.  Branch conditions and symbolic advances are compared as texts, and two
+    texts can denote the same thing (`!s.empty()` / `s.size()`, a hoisted local, a helper that returns 0 or n
+    instead of a guarded `+= n`): a verdict is given only where it does not depend on that.
+    When the atoms of one side are a subset of the other's (the same conditions, or a guard added / dropped)
+    the truth tables decide: does the counter advance, and by which literal amount.  "Advances on one side and
+    not on the other" counts only if the advancing side steps by a literal or by an amount that also occurs,
+    as the same text, on the other side (an unknown symbolic amount may be zero).  With unrelated atoms only
+    the two exact statements survive - demanded on every iteration / demanded under a guard - under the same
+    proviso."""
+    am, ad = term_atoms(measured), term_atoms(demanded)
+    sm, sd = _step_texts(measured), _step_texts(demanded)
+
+    def advance_known(side_terms, other_texts, val_idx, val):
+        """the terms active at this valuation step by literals or by amounts the other side knows"""
+        for dnf, step in side_terms:
+            if any(all(val[val_idx[a]] == p for a, p in conj) for conj in dnf):
+                if not isinstance(step, int) and str(step) not in other_texts:
+                    return False
+        return True
+
+    if am <= ad or ad <= am:
+        un = sorted(am | ad)
+        idx = {a: i for i, a in enumerate(un)}
+        tm, td = _advance_table(measured, un), _advance_table(demanded, un)
+        verdict = "same"
+        for val in tm:
+            if tm[val][0] != td[val][0]:
+                adv_terms, other = (measured, sd) if tm[val][0] else (demanded, sm)
+                if advance_known(adv_terms, other, idx, val):
+                    return "differ"
+                verdict = "unknown"
+            elif tm[val][1] is not None and td[val][1] is not None and tm[val][1] != td[val][1]:
+                return "differ"
+        return verdict
+    tm, td = _advance_table(measured, am), _advance_table(demanded, ad)
+    m_total = all(v[0] for v in tm.values())
+    d_total = all(v[0] for v in td.values())
+    if m_total and d_total:
+        lm = {v[1] for v in tm.values()}
+        ld = {v[1] for v in td.values()}
+        if len(lm) == 1 and len(ld) == 1 and None not in lm and None not in ld and lm != ld:
+            return "differ"
+        return "same"
+    if m_total != d_total:
+        total_terms, other = (measured, sd) if m_total else (demanded, sm)
+        if all(isinstance(step, int) or str(step) in other for dnf, step in total_terms):
+            return "differ"
+    return "unknown"
+
+
 def terms_to_json(terms):
     """canonical, readable form of a measured class: [{when: [[lit..]..], step}]; sites with the same
     condition and integer steps are merged"""
@@ -1216,6 +1284,7 @@ def rule_step(ctx):
         ctx.note("R-STEP: counter %s in %s could not be classified: %s" % (ci.name, fn.sig, msg))
     matched = set()
     n_inst = 0
+    n_lost = 0
     n_guarded = 0
     loops_seen = set()
     measured_cache = {}
@@ -1234,8 +1303,29 @@ def rule_step(ctx):
                     matched.add(cand[0])
                     ctx.note("R-STEP: tabled counter %s matched to %s (uses changed)" % (key, cand[0]))
         if not insts:
-            raise AnalysisBroken("R-STEP: tabled counter %s can no longer be found (function, advance or "
-                                 "indexed object changed): re-confirm the table" % key)
+            # the text of the advance or of what is fed may have changed (a local hoisted, a `?:` for an if):
+            # re-identify by function + what it feeds, or as the only untabled counter of that function
+            fsig, _, rest = key.partition(":+=")
+            feeds = rest.partition("@")[2]
+            untabled = [k for k in found if k not in by_key and k not in matched and k.startswith(fsig + ":+=")]
+            same_feed = [k for k in untabled if k.partition(":+=")[2].partition("@")[2] == feeds]
+            missing_here = [e2["key"] for e2 in entries if e2["key"].startswith(fsig + ":+=") and not found.get(e2["key"])]
+            pick = None
+            if len(same_feed) == 1:
+                pick = same_feed[0]
+            elif len(untabled) == 1 and len(missing_here) == 1:
+                pick = untabled[0]
+            if pick is not None:
+                insts = found[pick]
+                matched.add(pick)
+                ctx.note("R-STEP: tabled counter %s re-identified as %s" % (key, pick))
+        if not insts:
+            # not an analysis failure: the loop was restructured beyond recognition (or removed).  The obligation
+            # cannot be placed any more; it is listed, and the floors below fail if too many go this way
+            n_lost += 1
+            ctx.note("R-STEP: tabled counter %s can no longer be found (function, advance and indexed object all "
+                     "changed); not checked" % key)
+            continue
         matched.add(key)
         classes = e["classes"]
         groups = defaultdict(list)
@@ -1244,13 +1334,15 @@ def rule_step(ctx):
             ctx.saw(ci.view.fn)
             if ci.loop is not None:
                 loops_seen.add((ci.view.fn.key, ci.loop["id"]))
-        for fk, grp in groups.items():
-            if len(grp) != len(classes):
-                raise AnalysisBroken("R-STEP: %s: %d counter(s) with this signature in %s, the table has %d: "
-                                     "re-confirm the table" % (key, len(grp), short(fk), len(classes)))
+        if any(len(grp) != len(classes) for grp in groups.values()):
+            n_lost += 1
+            ctx.note("R-STEP: %s: the number of counters with this signature changed (table has %d); not checked"
+                     % (key, len(classes)))
+            continue
         measured_cache[key] = insts
         # every demanded class must be matched by a distinct counter of every instantiation
         verdict = [None] * len(classes)      # None = ok, else (counter, message)
+        incomparable = set()
         for fk, grp in sorted(groups.items()):
             free = list(grp)
             unmatched = []
@@ -1258,13 +1350,23 @@ def rule_step(ctx):
                 dem = terms_from_json(c["class"])
                 hit = None
                 for ci in free:
-                    if same_class([(d, s_) for d, s_, _ in ci.terms], dem):
+                    if compare_class([(d, s_) for d, s_, _ in ci.terms], dem) == "same":
                         hit = ci
                         break
                 if hit is not None:
                     free.remove(hit)
                 else:
                     unmatched.append(i)
+            # a left-over pair whose conditions are worded differently cannot be compared: not a verdict
+            for i in list(unmatched):
+                dem = terms_from_json(classes[i]["class"])
+                unk = [ci for ci in free if compare_class([(d, s_) for d, s_, _ in ci.terms], dem) == "unknown"]
+                if unk:
+                    free.remove(unk[0])
+                    unmatched.remove(i)
+                    incomparable.add(i)
+                    ctx.note("R-STEP: %s: branch conditions are worded differently from the table (`%s` / `%s`); "
+                             "not comparable, not checked" % (key, show_terms(measured_json(unk[0])), show_terms(classes[i]["class"])))
             for i in unmatched:
                 # blame the left-over counter (for a single class: the counter itself)
                 ci = free[0] if free else grp[0]
@@ -1281,6 +1383,9 @@ def rule_step(ctx):
             detail = {"demanded": show_terms(c["class"]), "indexes": c.get("indexes", e.get("indexes", "")),
                       "reason": c.get("reason", e.get("reason", "")), "anchors": e.get("props", [])}
             b = verdict[i]
+            if i in incomparable and b is None:
+                n_lost += 1
+                continue
             if b is not None:
                 ctx.bad(rule, ikey, b.where, b.view.fn.short,
                         "counter `%s` advances `%s`, demanded `%s` (%s)" % (
@@ -1295,13 +1400,14 @@ def rule_step(ctx):
         a, b = p["a"], p["b"]
         ia, ib = measured_cache.get(a), measured_cache.get(b)
         if not ia or not ib:
-            raise AnalysisBroken("R-STEP: pair %s / %s refers to a counter that is not tabled" % (a, b))
+            ctx.note("R-STEP: pair %s / %s: one side could not be located; not checked" % (a, b))
+            continue
         n_pairs += 1
         ok = True
         worst = None
         for x in ia:
             for y in ib:
-                if not same_class([(d, s) for d, s, _ in x.terms], [(d, s) for d, s, _ in y.terms]):
+                if compare_class([(d, s) for d, s, _ in x.terms], [(d, s) for d, s, _ in y.terms]) == "differ":
                     ok = False
                     worst = (x, y)
         k = "pair:%s" % p["name"]
@@ -1319,9 +1425,12 @@ def rule_step(ctx):
         for k in g["keys"]:
             insts = measured_cache.get(k)
             if not insts:
-                raise AnalysisBroken("R-STEP: group %s refers to %s, which is not tabled" % (g["name"], k))
+                ctx.note("R-STEP: group %s: %s could not be located; left out" % (g["name"], k))
+                continue
             fk0 = sorted({i.view.fn.key for i in insts})[0]
             lists.append((k, [i for i in insts if i.view.fn.key == fk0]))
+        if len(lists) < 2:
+            continue
         ref_k, ref = lists[0]
         for k, lst in lists[1:]:
             n_pairs += 1
@@ -1330,7 +1439,7 @@ def rule_step(ctx):
             for x in ref:
                 hit = None
                 for y in free:
-                    if same_class([(d, s_) for d, s_, _ in x.terms], [(d, s_) for d, s_, _ in y.terms]):
+                    if compare_class([(d, s_) for d, s_, _ in x.terms], [(d, s_) for d, s_, _ in y.terms]) != "differ":
                         hit = y
                         break
                 if hit is None:
